@@ -197,6 +197,17 @@ let rec take n l = if n <= 0 then [] else match l with [] -> [] | x :: t -> x ::
 let rec triples3 = function a :: b :: c :: r -> (int_of_string a, int_of_string b, int_of_string c) :: triples3 r | _ -> []
 let nlabel i : Big_int_Z.big_int = Z.of_int i
 
+(* lcs.<s>.<k> = label nterms (coeff term)*  with term = "one" | polynomial index *)
+let parse_lcs c s lps =
+  List.map (fun (_, v) ->
+      let lab = nlabel (int_of_string (List.nth v 0)) in
+      let rec go = function
+        | co :: tm :: r ->
+          let term = if tm = "one" then LC.TOne else LC.TPoly lps.(int_of_string tm).Marlin.lp_label in
+          (f_of_str co, term) :: go r
+        | _ -> [] in
+      (lab, go (List.tl (List.tl v)))) (indexed c ("lcs." ^ s))
+
 let run_pc_marlin c =
   let fo = fo () in
   let d = int1 c "max_degree" in
@@ -295,7 +306,42 @@ let run_pc_marlin c =
                   | r -> obs1 (k "check") "S" "refused");
                  recs.(t) <- Some (`Batch (tr3, pfs, vperm))
                | _ -> ())
-            | _ -> () (* lc operations: not modelled here *)
+            | [ "lc"; s; ls ] ->
+              let lcs = parse_lcs c s lps in
+              let tr3 = triples3 (get c ("lqs." ^ ls)) in
+              let lcarr = Array.of_list lcs in
+              let lc_value (_, terms) z = List.fold_left (fun acc (co, tm) ->
+                  fo.Field.fadd acc (match tm with
+                      | LC.TOne -> co
+                      | LC.TPoly l ->
+                        let lp = List.find (fun lp -> Z.equal lp.Marlin.lp_label l) (Array.to_list lps) in
+                        fo.Field.fmul co (Poly.eval fo lp.Marlin.lp_poly z))) (tof Z.zero) terms in
+              let qs = List.map (fun (k, zl, pj) -> (fst lcarr.(k), (nlabel zl, pts.(pj)))) tr3 in
+              let ev = List.map (fun (k, _, pj) -> ((fst lcarr.(k), pts.(pj)), lc_value lcarr.(k) pts.(pj))) tr3 in
+              let evm = Marlin.evals_map fo ev in
+              obs (k "evals") "F" (fs_to (List.map snd evm));
+              let items = List.map (fun i -> ((lps.(i), snd cs.(i)), lcomm i)) pperm in
+              let r = MarlinLC.mopen_combinations fo ck lcs items qs chal in
+              obs1 (k "open") "S" (class_of r);
+              (match r with
+               | Result.Ok (pfs, rest) ->
+                 obs1 (k "nchal") "N" (string_of_int (List.length chal - List.length rest));
+                 obs1 (k "nproofs") "N" (string_of_int (List.length pfs));
+                 obs1 (k "lc_evals") "F" "none";
+                 List.iteri (fun j pf ->
+                     obs1 (Printf.sprintf "pf.%d.%d.w" t j) "G1" (f_to_str pf.KZG10.pf_w);
+                     obs1 (Printf.sprintf "pf.%d.%d.rv" t j) "F" (f_opt_to_str pf.KZG10.pf_random_v)) pfs;
+                 let vtape = fs_of c (k "vtape") in
+                 let d = MarlinLC.mcheck_combinations fo vk lcs (List.map lcomm vperm) qs ev pfs vchal vtape in
+                 (match d with
+                  | Result.Ok ((b, vrest), draws) ->
+                    obs1 (k "check") "S" (if b then "accept" else "reject");
+                    obs1 (k "nvchal") "N" (string_of_int (List.length vchal - List.length vrest));
+                    obs1 (k "check_draws") "N" (string_of_int (int_of_nat draws))
+                  | r -> obs1 (k "check") "S" "refused");
+                 recs.(t) <- Some (`LC (lcs, tr3, pfs, vperm))
+               | _ -> ())
+            | _ -> ()
           done;
           (* ---- mutated verifier runs ---- *)
           List.iter (fun (m, mv) ->
@@ -394,6 +440,41 @@ let run_pc_marlin c =
                           List.fold_left (fun v (k, dd) -> if k = i then fo.Field.fadd v dd else v) v !deltas |> fun v -> (key, v)) evm in
                       let vtape = fs_of c (Printf.sprintf "vtape.%d" t) in
                       obs1 name "S" (decision (match Marlin.mbatch_check fo vk (List.map (fun i -> cms.(i)) !vperm) qs evm !pv mchal vtape with
+                          | Result.Ok ((b, _), _) -> Result.Ok b | Result.Err e -> Result.Err e | Result.Panic -> Result.Panic))
+                    end
+                  end
+                | Some (`LC (lcs0, tr3, pfs, vperm)) ->
+                  let lcs = ref lcs0 and ok = ref true and deltas = ref [] in
+                  let lcarr0 = Array.of_list lcs0 in
+                  let upd k f = lcs := List.mapi (fun i (lab, terms) -> if i = k then (lab, f terms) else (lab, terms)) !lcs in
+                  (match kind with
+                   | "value" -> deltas := [ (int_of_string (arg 0), f_of_str (arg 1)) ]
+                   | "coeff" -> let k = int_of_string (arg 0) and tk = int_of_string (arg 1) in
+                     if k < List.length !lcs && tk < List.length (snd (List.nth !lcs k)) then
+                       upd k (List.mapi (fun i (co, tm) -> if i = tk then (fo.Field.fadd co (f_of_str (arg 2)), tm) else (co, tm)))
+                     else ok := false
+                   | "const" -> let k = int_of_string (arg 0) in
+                     if k < List.length !lcs then upd k (fun terms -> terms @ [ (f_of_str (arg 1), LC.TOne) ]) else ok := false
+                   | "comm_swap" -> swap (int_of_string (arg 0)) (int_of_string (arg 1))
+                   | "sponge_pre" -> ()
+                   | _ -> ok := false);
+                  if !ok then begin
+                    let lc_value (_, terms) z = List.fold_left (fun acc (co, tm) ->
+                        fo.Field.fadd acc (match tm with
+                            | LC.TOne -> co
+                            | LC.TPoly l ->
+                              let lp = List.find (fun lp -> Z.equal lp.Marlin.lp_label l) (Array.to_list lps) in
+                              fo.Field.fmul co (Poly.eval fo lp.Marlin.lp_poly z))) (tof Z.zero) terms in
+                    let qs = List.map (fun (k, zl, pj) -> (fst lcarr0.(k), (nlabel zl, pts.(pj)))) tr3 in
+                    let ev = List.map (fun (k, _, pj) -> ((fst lcarr0.(k), pts.(pj)), lc_value lcarr0.(k) pts.(pj))) tr3 in
+                    let evm = Marlin.evals_map fo ev in
+                    let nk = List.length evm in
+                    if List.exists (fun (k, _) -> k >= nk) !deltas then ()
+                    else begin
+                      let evm = List.mapi (fun i (key, v) ->
+                          (key, List.fold_left (fun v (k, dd) -> if k = i then fo.Field.fadd v dd else v) v !deltas)) evm in
+                      let vtape = fs_of c (Printf.sprintf "vtape.%d" t) in
+                      obs1 name "S" (decision (match MarlinLC.mcheck_combinations fo vk !lcs (List.map (fun i -> cms.(i)) vperm) qs evm pfs mchal vtape with
                           | Result.Ok ((b, _), _) -> Result.Ok b | Result.Err e -> Result.Err e | Result.Panic -> Result.Panic))
                     end
                   end
